@@ -640,10 +640,13 @@ def trace_lockset(tr):
     a unique_lock& parameter of the root counts as held)"""
     held = set(); out = []
     pending = False
+    alias = lock_aliases(tr)
     for it in tr:
         out.append(frozenset(held))
         if it.k in ('enter', 'leave', 'branch', 'switch', 'abort', 'exception'):
             continue
+        if it.k == 'call' and it.get('recv') and norm(it.get('field') or '') in alias and norm(it.get('callee') or '') in ('std::unique_lock::unlock', 'std::unique_lock::lock'):
+            it = Item(it, recv=alias[norm(it['field'])])          # a scope guard that holds a reference to the caller's lock
         if it.k == 'construct' and LOCK_TYPES.search(it.get('callee') or '') and not it.get('copy_or_move'):
             a = it.get('args') or []
             pending = not (len(a) > 1 and re.search(r'defer_lock|try_to_lock', (a[1].get('type') or '') + (a[1].get('path') or '')))
@@ -662,6 +665,18 @@ def trace_lockset(tr):
         elif it.k == 'call' and norm(it.get('callee')) == 'std::unique_lock::lock':
             held.add(it.get('recv'))
     return out
+
+
+def lock_aliases(tr):
+    """reference members bound to a lock object on this trace ({member declaration: path of the lock}): a scope guard (unlocked_region
+    guard(lk);) keeps a unique_lock& and unlocks / re-locks it in its constructor and destructor"""
+    alias = {}
+    for it in tr:
+        if it.k == 'write' and it.get('init') and re.fullmatch(r'(local|param):\w+(#\d+)?', it.get('rhs') or '') and 'unique_lock' in (it.get('type') or it.get('rhs_type') or 'unique_lock'):
+            fld = norm(it.get('lfield') or it.get('field') or '')
+            if fld:
+                alias[fld] = it['rhs']
+    return alias
 
 
 def entry_locks(f):
